@@ -1,7 +1,7 @@
 from typing import Any, List, Optional, Set, TypeVar
 
 from .exceptions import EvaluationError
-from .types import Evaluatable, Options
+from .types import Evaluatable, Options, _present_keys
 
 A = TypeVar("A", covariant=True)
 
@@ -59,13 +59,17 @@ class Coalesce(Evaluatable[A]):
     def _delegate(self, method: str, options: Optional[Options] = None) -> Any:
         options = options or {}
         err: Optional[EvaluationError] = None
+        skipped: Set[str] = set()
 
         for member in self.members:
             try:
                 member.validate(options)
-                return getattr(member, method)(options)
+                result = getattr(member, method)(options)
+                return result | skipped if method == "keys" else result
             except EvaluationError as e:
                 err = e
+                if method == "keys":
+                    skipped |= _present_keys(member, options)
 
         raise err  # type: ignore
 
